@@ -6,6 +6,9 @@
 (* logged as [i |-> n, p |-> k]: n if it is the integer n, k if it is 10^k         *)
 (* (NoNum = 9999 otherwise), so that TLC can compare it with a spec number         *)
 (* (space, e):  ("log", e) = e  matches i = e;  ("linear", e) = 10^e matches p = e.*)
+(* set_mode logs the mode in lower case (m) and the positions the caller wrote in  *)
+(* upper case (cs); a string that is neither mode is logged as m with cs = <<>>.   *)
+(* update_model logs the exponents of the vector, of whatever length.              *)
 (* Stateful traces: at the first mismatch <<"BAD", ..>> is printed and the rest of *)
 (* that tid is skipped.                                                            *)
 EXTENDS MC_Optimizer, IOUtils
@@ -54,14 +57,17 @@ Reset == /\ setting' = InitSetting /\ derivedOn' = InitDerived
 Apply(e) ==
     CASE e.op = "enable_fit"          -> IF e.p \in PSet THEN EnableFit(e.p) ELSE Unknown(e.op, e.p)
       [] e.op = "disable_fit"         -> IF e.p \in PSet THEN DisableFit(e.p) ELSE Unknown(e.op, e.p)
-      [] e.op = "set_mode"            -> IF e.p \in PSet THEN SetMode(e.p, e.m) ELSE Unknown(e.op, e.p)
+      [] e.op = "set_mode"            -> IF e.p \notin PSet THEN Unknown(e.op, e.p)
+                                         ELSE IF e.m \in {"linear", "log"}
+                                              THEN SetMode(e.p, e.m, {e.cs[i] : i \in 1..Len(e.cs)})
+                                              ELSE BadMode(e.p, e.m)
       [] e.op = "set_boundary"        -> IF e.p \in PSet THEN SetBoundary(e.p, e.x) ELSE Unknown(e.op, e.p)
       [] e.op = "set_factor_boundary" -> IF e.p \in PSet THEN SetFactorBoundary(e.p, e.x) ELSE Unknown(e.op, e.p)
       [] e.op = "set_prior"           -> IF e.p \in PSet THEN SetPrior(e.p, e.pr) ELSE Unknown(e.op, e.p)
       [] e.op = "enable_derived"      -> IF e.p \in DSet THEN EnableDerived(e.p) ELSE Unknown(e.op, e.p)
       [] e.op = "disable_derived"     -> IF e.p \in DSet THEN DisableDerived(e.p) ELSE Unknown(e.op, e.p)
       [] e.op = "compile_params"      -> Compile
-      [] e.op = "update_model"        -> UpdateModel(e.x)
+      [] e.op = "update_model"        -> IF Len(e.x) = Len(compiled) THEN UpdateModel(e.x) ELSE UpdateWrong(e.x)
       [] e.op = "write_back"          -> WriteBack
 
 TInit == Init /\ l = 1 /\ skip = FALSE
